@@ -6,12 +6,17 @@ Real code driven (in-process, nothing re-implemented):
   AirPlayV1.send_audio_packet and AirPlayV2.send_audio_packet (plain and with a real
   Chacha20Cipher8byteNonce under a fixed key), ControlClient.datagram_received ->
   _retransmit_lost_packets.
+Sequences of streams: the real RaopPlaybackManager (its one StreamContext and its teardown()),
+per stream a new StreamClient/protocol as setup() builds them, the real send_audio()
+(context.reset(), _stream_data, backlog.clear()) under the virtual-time loop; the property is
+demanded of EVERY stream of the sequence and the context after every reset is compared with
+the model's `Ctx.reset`.
 Fakes (harness only): an AudioSource holding scripted bytes, capturing datagram transports,
-an object with `session_id` standing in for the RTSP session, `monotonic`/`monotonic_ns`
+an object with `session_id` standing in for the RTSP session (answering every request at once in sessions), `monotonic`/`monotonic_ns`
 and `asyncio.sleep` in the stream_client namespace replaced by a scripted clock whose
 random lag makes the loop take its compensation branch.
 
-Model lines (Driver/C16.lean): `stream`, `ctrl`, `ctrlat`, `load`, `fifo`.
+Model lines (Driver/C16.lean): `stream`, `ctrl`, `ctrlat`, `load`, `fifo`, `ctxnew`, `ctxstream`, `ctxreset`.
 The compensation decisions fed to the model are the ones *observed* on the real run; for an
 encrypted v2 run the datagrams in the model's backlog are the observed ones (`load`: the
 cipher is a parameter of the model), payloads are compared after opening them.
@@ -26,9 +31,12 @@ RULE = ("stream cases = (protocol variant v1|v2 plain|v2 encrypted) x channels{1
         "boundaries} x a random clock-lag script that makes _stream_data compensate with 0..3 extra packets; "
         "retransmit cases = requests (first,count) through ControlClient.datagram_received for every first over "
         "the whole backlog (+-3) of a >1000-packet run that crosses the 2^16 wrap, and mid-stream; PacketFifo "
-        "cases = random set/get/in scripts incl. duplicate keys and limits 0..4. non-trivial = the stream has a "
+        "cases = random set/get/in scripts incl. duplicate keys and limits 0..4; sessions = 2-3 consecutive streams of "
+        "different lengths / formats / sample rates on ONE StreamContext owned by a real RaopPlaybackManager (new client per "
+        "stream, real send_audio and teardown, reset() in between as the code does), with retransmit requests during "
+        "earlier and later streams, also with the same start sequence number twice. non-trivial = the stream has a "
         "short last data packet, or wraps the sequence number, or compensated at least once, or a request that "
-        "crosses the wrap / the backlog edge, or a fifo script with an eviction or a raise; distinct = canonical case")
+        "crosses the wrap / the backlog edge, or a fifo script with an eviction or a raise, or a session of >= 2 streams; distinct = canonical case")
 ASSUMPTIONS = [
     "AudioSource.readframes(n) returns the next n*frame_size bytes of the source, fewer at the end, b'' when exhausted",
     "the stream is not stopped (stop()) and the audio transport is not closing while it runs",
@@ -426,6 +434,333 @@ def case_id(case):
     return {k: v for k, v in case.items() if k != "requests"} | {"nrequests": len(case.get("requests", []))}
 
 
+# --------------------------------------------------------------------------- several streams on one context
+
+class VClock:
+    """monotonic()/monotonic_ns() for a session run under the virtual-time loop: loop time
+    plus a random lag accumulated at reads (makes the loop compensate)."""
+
+    def __init__(self, loop):
+        self.loop = loop
+        self.extra = 0.0
+        self.rnd = random.Random(0)
+        self.lagp = 0.0
+
+    def script(self, lagseed, lagp):
+        self.rnd = random.Random(lagseed)
+        self.lagp = lagp
+
+    def monotonic(self):
+        return self.loop.time() + self.extra
+
+    def monotonic_ns(self):
+        return int(round((self.loop.time() + self.extra) * 1e9))
+
+    def lag(self):
+        if self.lagp and self.rnd.random() < self.lagp:
+            self.extra += self.rnd.choice((0.004, 0.009, 0.013, 0.02, 0.03, 0.05))
+
+
+class _Resp:
+    code = 200
+    headers = {}
+    body = b""
+
+
+class _Conn:
+    remote_ip = "10.0.0.1"
+    local_ip = "10.0.0.2"
+
+    def close(self):
+        pass
+
+
+class SessionRtsp:
+    """Stands in for RtspSession during send_audio: every request is answered at once."""
+
+    def __init__(self, session_id, on_record):
+        self.session_id = session_id
+        self.connection = _Conn()
+        self._on_record = on_record
+
+    async def record(self, *a, **k):
+        self._on_record()
+        return _Resp()
+
+    async def _ok(self, *a, **k):
+        return _Resp()
+
+    flush = teardown = feedback = set_parameter = set_metadata = set_artwork = _ok
+
+
+class _Timing:
+    port = 0
+
+    def close(self):
+        pass
+
+
+class _EndpointLoop:
+    """`StreamClient.loop` for send_audio: hands out the capturing audio transport."""
+
+    def __init__(self, transport):
+        self.transport = transport
+
+    async def create_datagram_endpoint(self, factory, **_k):
+        proto = factory()
+        proto.connection_made(self.transport)
+        return self.transport, proto
+
+
+def execute_session(sess):
+    """2-3 consecutive streams on ONE StreamContext, the way stream_file does it: the real
+    RaopPlaybackManager owns the context; per stream a new StreamClient + protocol instance
+    (what setup() creates), the audio properties initialize() would set, the real
+    send_audio() (context.reset(), _stream_data, backlog.clear()) and the real teardown()
+    (context.reset())."""
+    from harness.core import vloop
+    from pyatv.protocols.raop import protocols as raop_protocols
+    from pyatv.protocols.raop import stream_client as sc
+    from pyatv.protocols.raop import timing
+    from pyatv.protocols.raop.packets import RetransmitReqeust
+
+    out = {"error": None, "streams": [], "fresh": None}
+    try:
+        saved = (sc.monotonic, sc.monotonic_ns, raop_protocols.randrange, timing.ntp_now)
+    except AttributeError as ex:
+        out["error"] = "harness-setup: %s" % ex
+        return out
+    script = {"s0": 0, "ntp": 0}
+
+    async def go():
+        import pyatv.protocols.raop as raop
+
+        loop = asyncio.get_running_loop()
+        clock = VClock(loop)
+        sc.monotonic, sc.monotonic_ns = clock.monotonic, clock.monotonic_ns
+        mgr = raop.RaopPlaybackManager(None)
+        context = mgr.context
+        out["fresh"] = (context.sample_rate, context.rtpseq, context.start_ts, context.head_ts, context.latency,
+                        context.padding_sent)
+        for case in sess["streams"]:
+            obs = {"error": None, "datagrams": [], "comp": [], "responses": [], "ctx": None, "keys": [],
+                   "start_ts": None, "latency": None, "after_teardown": None, "now": None, "td_now": None}
+            out["streams"].append(obs)
+            frame_size = case["channels"] * case["bps"]
+            data = source_bytes(case)
+            clock.script(case["lagseed"], case["lagp"])
+            audio, ctrl = Transport(), Transport()
+
+            def on_record(obs=obs):
+                obs["start_ts"], obs["latency"] = context.start_ts, context.latency
+
+            rtsp = SessionRtsp(case["ssrc"], on_record)
+            # --- setup(): new client and protocol instance around the shared context
+            if case["variant"] == "v1":
+                from pyatv.protocols.raop.protocols.airplayv1 import AirPlayV1
+                proto = AirPlayV1(context, rtsp)
+            else:
+                from pyatv.protocols.raop.protocols.airplayv2 import AirPlayV2
+                proto = AirPlayV2(context, rtsp)
+                if case["variant"] == "v2c":
+                    from pyatv.support.chacha20 import Chacha20Cipher8byteNonce
+                    proto._cipher = Chacha20Cipher8byteNonce(KEY, KEY)
+            client = sc.StreamClient(rtsp, context, proto, None)
+            mgr._stream_client, mgr._rtsp, mgr._connection = client, rtsp, rtsp.connection
+            # --- initialize(): audio properties of the receiver, control/timing endpoints
+            context.sample_rate, context.channels, context.bytes_per_channel = case["sample_rate"], case["channels"], case["bps"]
+            control = sc.ControlClient(context, client._packet_backlog)
+            control.connection_made(ctrl)
+            client.control_client, client.timing_server = control, _Timing()
+            client.loop = _EndpointLoop(audio)
+            source = make_source(data, frame_size, clock)
+
+            requests = {}
+            for k, first, count in case.get("requests", []):
+                requests.setdefault(k, []).append((first, count))
+            state = {"in_comp": False, "sent": 0}
+
+            def fire(k, obs=obs, requests=requests, control=control, ctrl=ctrl):
+                for first, count in requests.get(k, []):
+                    before = len(ctrl.out)
+                    req = RetransmitReqeust.encode(0x80, 0xD5, 1, first, count)
+                    err = None
+                    try:
+                        control.datagram_received(req, ("10.0.0.1", 6001))
+                    except Exception as ex:
+                        err = type(ex).__name__
+                    obs["responses"].append({"k": k, "first": first, "count": count, "req": req.hex(),
+                                             "out": ctrl.out[before:], "error": err})
+
+            real_send_packet, real_send_n = client._send_packet, client._send_number_of_packets
+
+            async def send_packet(src, first, transport, obs=obs, state=state, audio=audio, client=client, fire=fire,
+                                  real=real_send_packet):
+                if not state["in_comp"]:
+                    obs["comp"].append(0)
+                if not audio.out:
+                    fire(0)
+                n = await real(src, first, transport)
+                if len(audio.out) > state["sent"]:
+                    state["sent"] = len(audio.out)
+                    obs["keys"] = list(client._packet_backlog)
+                    fire(state["sent"])
+                return n
+
+            async def send_n(src, transport, count, obs=obs, state=state, real=real_send_n):
+                obs["comp"][-1] = count
+                state["in_comp"] = True
+                try:
+                    return await real(src, transport, count)
+                finally:
+                    state["in_comp"] = False
+
+            client._send_packet, client._send_number_of_packets = send_packet, send_n
+            script["s0"], script["ntp"] = case["s0"], case["ntp"]
+            obs["now"] = timing.ntp2ts(case["ntp"], case["sample_rate"])
+            try:
+                await client.send_audio(source)
+            except Exception as ex:  # observation
+                cause = ex.__cause__ or ex
+                obs["error"] = "%s: %s" % (type(cause).__name__, str(cause)[:200])
+            obs["datagrams"] = audio.out
+            obs["ctx"] = (context.rtpseq, context.head_ts, context.padding_sent)
+            if obs["start_ts"] is None:
+                obs["start_ts"], obs["latency"] = context.start_ts, context.latency
+            # --- teardown(): the real one (context.reset())
+            script["s0"], script["ntp"] = case["td_s0"], case["td_ntp"]
+            obs["td_now"] = timing.ntp2ts(case["td_ntp"], context.sample_rate)
+            await mgr.teardown()
+            obs["after_teardown"] = (context.sample_rate, context.rtpseq, context.start_ts, context.head_ts,
+                                     context.latency, context.padding_sent)
+
+    try:
+        raop_protocols.randrange = lambda *_a: script["s0"]
+        timing.ntp_now = lambda: script["ntp"]
+        vloop.run(go)
+    except Exception as ex:
+        out["error"] = "%s: %s" % (type(ex).__name__, str(ex)[:200])
+    finally:
+        sc.monotonic, sc.monotonic_ns, raop_protocols.randrange, timing.ntp_now = saved
+    return out
+
+
+def session_id(sess):
+    return {"session": [case_id(c) for c in sess["streams"]]}
+
+
+def session_lines(sess, out):
+    lines, spans = ["ctxnew"], []
+    for case, obs in zip(sess["streams"], out["streams"]):
+        fs = case["channels"] * case["bps"]
+        start = len(lines)
+        lines.append("ctxstream %d %d %d %d %d %s %s" % (case["sample_rate"], fs, case["ssrc"], case["s0"], obs["now"],
+                                                       ",".join(map(str, obs["comp"])) or "-", hx(source_bytes(case))))
+        if obs["responses"] and case["variant"] == "v2c":
+            lines.append("load " + (",".join("%d:%s" % (struct.unpack(">H", d[2:4])[0], d.hex()) for d in obs["datagrams"]) or "-"))
+        for r in obs["responses"]:
+            lines.append("ctrlat %d %s" % (r["k"], r["req"]))
+        lines.append("ctxreset %d %d" % (case["td_s0"], obs["td_now"]))
+        spans.append((start, len(lines) - start))
+    return lines, spans
+
+
+def session_failures(sess, out):
+    """The property, demanded of EVERY stream of the sequence."""
+    fails = []
+    if out["error"]:
+        return [(0, "session:error", "the session raised " + out["error"])]
+    for j, (case, obs) in enumerate(zip(sess["streams"], out["streams"])):
+        opened = [open_datagram(case, d, i) for i, d in enumerate(obs["datagrams"])]
+        for sig, what in oracle_stream(case, obs, opened):
+            fails.append((j, "session:" + ("first:" if j == 0 else "later:") + sig, "stream %d of the session: %s" % (j + 1, what)))
+        seen = set()
+        for sig, what, _r in oracle_retransmit(case, obs):
+            if sig not in seen:
+                seen.add(sig)
+                fails.append((j, "session:" + sig, "stream %d of the session: %s" % (j + 1, what)))
+    return fails
+
+
+def run_sessions(ctx, sessions):
+    results, lines, index = [], [], []
+    for sess in sessions:
+        out = execute_session(sess)
+        if out["error"] or len(out["streams"]) != len(sess["streams"]):
+            ctx.disagree(session_id(sess), out["error"], "n/a", where="session setup")
+            results.append((sess, out, None, None))
+            continue
+        ls, spans = session_lines(sess, out)
+        results.append((sess, out, len(lines), spans))
+        lines += ls
+    answers = ctx.lean(lines) if lines else []
+    for sess, out, off, spans in results:
+        ctx.note("sessions")
+        ctx.note("session:streams=%d" % len(sess["streams"]))
+        ctx.case(session_id(sess), len(sess["streams"]) > 1,
+                 sample={"session": [{k: c[k] for k in ("variant", "channels", "bps", "sample_rate", "frames", "s0")}
+                                     for c in sess["streams"]],
+                         "packets": [len(o["datagrams"]) for o in out["streams"]]})
+        if off is not None:
+            ans = answers[off:]
+            fresh = "%d %d %d %d %d %d" % out["fresh"]
+            if ans[0] != fresh:
+                ctx.disagree(session_id(sess), fresh, ans[0], where="StreamContext()")
+            ctx.validated()
+            for j, (case, obs, (start, n)) in enumerate(zip(sess["streams"], out["streams"], spans)):
+                a = ans[start:start + n]
+                ident = dict(case, session_stream=j + 1)
+                opened = [open_datagram(case, d, i) for i, d in enumerate(obs["datagrams"])]
+                ctx.note("session:packets", len(obs["datagrams"]))
+                ctx.note("session:requests", len(obs["responses"]))
+                lat, _, rest = a[0].partition(" ")
+                if lat != str(obs["latency"]):
+                    ctx.disagree(case_id(ident), obs["latency"], lat, where="latency after send_audio's reset (stream %d)" % (j + 1))
+                compare(ctx, ident, obs, opened, [rest] + a[1:-1])
+                impl = "%d %d %d %d %d %d" % obs["after_teardown"]
+                if a[-1] != impl:
+                    ctx.disagree(case_id(ident), impl, a[-1], where="context after teardown's reset (stream %d)" % (j + 1))
+                ctx.validated()
+        seen = set()
+        for j, sig, what in session_failures(sess, out):
+            if sig in seen:
+                continue
+            seen.add(sig)
+            ctx.fail(sig, {"session": sess, "stream": j + 1}, what, "see property C16 (every stream of the sequence)", what)
+
+
+def gen_sessions(ctx):
+    rng = ctx.rng.fork("sessions")
+    formats = [(c, b) for c in (1, 2) for b in (1, 2, 3, 4)]
+    rates = (8000, 8000, 11025, 44100)
+    sessions = []
+    for i in range(ctx.scale(7, 40)):
+        variant = ("v1", "v2c", "v2")[i % 3]
+        n = 2 if (i % 2 == 0 and not ctx.thorough) else rng.choice((2, 3))
+        same_seq = i % 3 == 1                      # consecutive streams start at the same sequence number
+        same_fmt = rng.chance(0.5)
+        fmt0, rate0 = rng.choice(formats[:6]), rng.choice(rates)
+        s0 = rng.choice((65535, 65534, 0, rng.randrange(MOD)))
+        streams = []
+        for j in range(n):
+            ch, b = fmt0 if same_fmt else rng.choice(formats[:6])
+            rate = rate0 if same_fmt else rng.choice(rates)
+            frames = rng.choice((0, 1, 10, 351, 352, 353, 2 * FPP, 3 * FPP + 17, rng.randrange(0, 4 * FPP)))
+            sj = s0 if same_seq else rng.choice((65535, 65533, 0, 1, rng.randrange(MOD)))
+            total = -(-frames // FPP) + -(-(22050 + rate) // FPP)
+            reqs = []
+            if j == 0 or rng.chance(0.6):          # a retransmit session during this stream
+                for _ in range(ctx.scale(6, 14)):
+                    k = rng.choice((1, 2, 3, total // 2, total - 1, total, rng.randrange(0, total + 1)))
+                    f = rng.randrange(-2, max(1, k) + 2)
+                    reqs.append([k, (sj + f) % MOD, rng.randrange(0, 5)])
+            streams.append(base_case(rng, variant=variant, channels=ch, bps=b, sample_rate=rate, frames=frames, s0=sj,
+                                     lagp=rng.choice((0.0, 0.3)), requests=reqs, td_s0=rng.randrange(MOD),
+                                     td_ntp=(3900000000 + rng.getrandbits(20)) << 32 | rng.getrandbits(32)))
+        sessions.append({"streams": streams})
+    return sessions
+
+
 # --------------------------------------------------------------------------- generators
 
 def base_case(rng, **kw):
@@ -445,7 +780,7 @@ def gen_stream_cases(ctx):
     # every source length 0..3*352+351 frames (every remainder), small latencies so a case is a few packets
     step = ctx.scale(1, 1)
     for n in range(0, 3 * FPP + FPP, step):
-        fmts = formats if ctx.thorough else ([formats[n % 8], formats[(n * 5 + 3) % 8]] if n % 5 == 0 else [formats[(n * 3) % 8]])
+        fmts = formats if ctx.thorough else ([formats[n % 8], formats[(n * 5 + 3) % 8]] if n % 16 == 0 else [formats[(n * 3) % 8]])
         for (ch, b) in fmts:
             variant = ("v1", "v2", "v2c")[rng.randrange(3)] if not ctx.thorough or rng.chance(0.7) else "v1"
             s0 = rng.choice(s0s + [rng.randrange(MOD)])
@@ -485,7 +820,7 @@ def gen_retransmit_cases(ctx):
     firsts = range(oldest - 3, npk + 3 + 3)
     counts = (1, 2, 3, 4) if not ctx.thorough else (0, 1, 2, 3, 4, 5, 6, 7, 8)
     for f in firsts:
-        for c in (counts if ctx.thorough else (1 + f % 4, 1 + (f + 2) % 4)):
+        for c in (counts if ctx.thorough else ((1 + f % 4, 1 + (f + 2) % 4) if f % 3 == 0 else (1 + f % 4,))):
             reqs.append([-1, (s0 + f) % MOD, c])
     for c in (16, 64, 999, 1000, 1001, 1100):
         for f in rng.sample(list(firsts), ctx.scale(2, 12)):
@@ -635,18 +970,25 @@ def d11_witness_case(rng):
                      requests=[[-1, 65534, 4], [4, 65534, 4], [3, 65535, 3]])
 
 
-def run(ctx, only=None):
+def run(ctx, only=None, only_sessions=None):
+    if only_sessions is not None:
+        run_sessions(ctx, only_sessions)
+        return
     if only is not None:
         run_cases(ctx, only)
         return
     run_cases(ctx, [d11_witness_case(ctx.rng.fork("d11"))])
     run_fifo(ctx)
+    run_sessions(ctx, gen_sessions(ctx))
     run_cases(ctx, gen_retransmit_cases(ctx))
     run_cases(ctx, gen_stream_cases(ctx))
 
 
 def replay(ctx, failure):
     case = failure["case"]
+    if "session" in case:
+        sess = case["session"]
+        return bool(session_failures(sess, execute_session(sess)))
     if "fifo" in case:
         limit, ops = case["fifo"]
         out, keys = fifo_impl(limit, ops)
@@ -661,6 +1003,15 @@ def replay(ctx, failure):
 
 def shrink(ctx, failure):
     """Keep only the failing request; shorten the source while the failure persists."""
+    if "session" in failure["case"]:
+        sess, j = failure["case"]["session"], failure["case"]["stream"]
+        best = {"streams": [dict(c, requests=[]) if failure["sig"].count("retransmit") == 0 else c
+                            for c in sess["streams"][:j]]}
+        if any(sig == failure["sig"] for _j, sig, _w in session_failures(best, execute_session(best))):
+            return dict(failure, case={"session": best, "stream": j})
+        return failure
+    if "fifo" in failure["case"]:
+        return failure
     case = dict(failure["case"])
     case.pop("nrequests", None)
     case.setdefault("requests", [])
